@@ -11,14 +11,14 @@ import (
 
 // Value is a symbolic Go value.
 type Value struct {
-	T  types.Type
-	Tm *Term             // scalar (Int, Bool, Str, Flt, Any) or fixed array (SMT array)
-	Sl *SliceVal         // slice
-	St map[string]*Value // struct value
-	Cl *Closure          // function literal bound to a local
-	Raw bool             // pointer into a slice of invariant-bearing structs (see typeinv.go)
-	RawC *Term           // when Raw: the condition under which the pointer is raw (nil = always)
-	Table *funcTable     // function value read from an immutable package-level table
+	T     types.Type
+	Tm    *Term             // scalar (Int, Bool, Str, Flt, Any) or fixed array (SMT array)
+	Sl    *SliceVal         // slice
+	St    map[string]*Value // struct value
+	Cl    *Closure          // function literal bound to a local
+	Raw   bool              // pointer into a slice of invariant-bearing structs (see typeinv.go)
+	RawC  *Term             // when Raw: the condition under which the pointer is raw (nil = always)
+	Table *funcTable        // function value read from an immutable package-level table
 	// Addr is set for struct values that are addressable views of heap cells (unused for plain values)
 }
 
@@ -178,19 +178,19 @@ type heapBase struct {
 }
 
 type State struct {
-	vars  map[*types.Var]*Value
-	heap  map[string]*Term
-	base  *heapBase
-	alloc *Term
-	pc    []*Term
-	path  []*Term // branch conditions only (guards used when states are merged)
-	dead  bool
-	dirty []*Term // addresses of invariant-bearing objects written since the last boundary
-	dirtyTI []*typeInvInfo
-	known map[int]bool // invariant instances already assumed
-	quiet bool    // spec evaluation inside binders: do not record facts
+	vars     map[*types.Var]*Value
+	heap     map[string]*Term
+	base     *heapBase
+	alloc    *Term
+	pc       []*Term
+	path     []*Term // branch conditions only (guards used when states are merged)
+	dead     bool
+	dirty    []*Term // addresses of invariant-bearing objects written since the last boundary
+	dirtyTI  []*typeInvInfo
+	known    map[int]bool // invariant instances already assumed
+	quiet    bool         // spec evaluation inside binders: do not record facts
 	fallthru bool
-	label string // case label of a split dispatch switch (obligation naming)
+	label    string // case label of a split dispatch switch (obligation naming)
 }
 
 func (s *State) clone() *State {
